@@ -102,7 +102,8 @@ def make_pelt(n, m, p=1, mode="c02"):
 
     def run(eng, acc):
         from skchange.change_detectors import PELT
-        det = PELT(TableCost(p=p), penalty_scale=SymReal(sigma), min_segment_length=m)
+        user_cost = TableCost(p=p)
+        det = PELT(user_cost, penalty_scale=SymReal(sigma), min_segment_length=m)
         det.fit(X)
         out = det.predict(X)
         cpts = [int(c) for c in out["ilocs"]]
@@ -113,8 +114,11 @@ def make_pelt(n, m, p=1, mode="c02"):
         if mode == "c04":
             return
         # B0: the detector saw the data only through cost.evaluate on admissible cuts
-        req = det._cost.requested_
-        acc.concrete("B0.cuts_admissible", all(0 <= s and e <= n and e - s >= m for s, e in req), dict(info, req=req[:20]))
+        req = getattr(user_cost, "requested_", None)      # None if the detector works on a clone of the cost
+        if req is not None:
+            acc.concrete("B0.cuts_admissible", all(0 <= s and e <= n and e - s >= m for s, e in req), dict(info, req=req[:20]))
+        else:
+            acc.inc("B0_skipped_cost_was_cloned")
         # O1: every prefix score is the optimum over admissible segmentations
         for L in range(m, n + 1):
             segs = segmentations(L, m)
@@ -216,9 +220,10 @@ def replay(cx):
         from .wellformed import problems_changepoints
         from skchange.change_detectors import PELT
         with proxy.native():
-            det = PELT(TableCost(p=p, values=values), penalty_scale=sigma, min_segment_length=m).fit(dummy_X(n, p))
+            uc = TableCost(p=p, values=values)
+            det = PELT(uc, penalty_scale=sigma, min_segment_length=m).fit(dummy_X(n, p))
             out = det.predict(dummy_X(n, p))
-            req = det._cost.requested_
+            req = getattr(uc, "requested_", [])
         bad = problems_changepoints(out, n, m)
         if not all(0 <= s and e <= n and e - s >= m for s, e in req):
             bad.append(f"cost evaluated on inadmissible cuts {[r for r in req if not (0 <= r[0] and r[1] <= n and r[1] - r[0] >= m)][:4]}")
